@@ -65,7 +65,7 @@ def logu(rng, lo, hi):
     return float(np.exp(rng.uniform(np.log(lo), np.log(hi))))
 
 
-def build_mapper(ctx, rng, kind):
+def build_mapper(ctx, rng, kind, lattice=False):
     aa = ctx.aa
     H, W = int(rng.integers(3, 7)), int(rng.integers(3, 7))
     m, fam = gen.random_mask(rng, H, W, family=str(rng.choice(["dense", "all_unmasked", "bernoulli", "holes"])))
@@ -84,9 +84,18 @@ def build_mapper(ctx, rng, kind):
         mesh = aa.Mesh2DRectangular.overlay_grid(shape_native=shape, grid=aa.Grid2DIrregular(values=src))
         desc = {"kind": "rect", "shape": shape}
     else:
-        V = gen_aa.delaunay_vertices(rng, src.min(0), src.max(0), int(rng.integers(5, 21)), spread=float(rng.uniform(0.8, 1.3)))
+        if lattice:
+            # vertices on a regular lattice (what an overlay image-mesh hands to the Delaunay mesh): every cell is a co-circular
+            # quadruple, the triangulation is not unique and keeps one diagonal per cell
+            ny, nx = int(rng.integers(2, 6)), int(rng.integers(3, 6))
+            lo, hi = src.min(0), src.max(0)
+            yy, xx = np.meshgrid(np.linspace(lo[0], hi[0], ny), np.linspace(lo[1], hi[1], nx), indexing="ij")
+            V = np.stack([yy.ravel(), xx.ravel()], axis=1)
+            V = V[rng.permutation(len(V))] if rng.random() < 0.5 else V
+        else:
+            V = gen_aa.delaunay_vertices(rng, src.min(0), src.max(0), int(rng.integers(5, 21)), spread=float(rng.uniform(0.8, 1.3)))
         mesh = aa.Mesh2DDelaunay(values=V)
-        desc = {"kind": "del", "vertices": V}
+        desc = {"kind": "del", "vertices": V, "lattice": bool(lattice)}
     mg = aa.MapperGrids(mask=mask, source_plane_data_grid=aa.Grid2DIrregular(values=src), source_plane_mesh_grid=mesh, adapt_data=adapt)
     mp = aa.Mapper(mapper_grids=mg, over_sampler=osamp, regularization=None)
     return mp, desc, m
@@ -105,9 +114,14 @@ def adjacency(mp, desc):
                     pairs.add((a * Wm + b, a * Wm + b + 1))
         return pairs
     from scipy.spatial import Delaunay
-    tri = Delaunay(np.asarray(desc["vertices"]))
+    if desc.get("lattice"):
+        # degenerate vertex set: several triangulations are Delaunay; the pairs are the edges of the one the mesh itself holds
+        # and interpolates on (for generic sets below the harness computes the triangulation itself)
+        simplices = np.asarray(mp.source_plane_mesh_grid.delaunay.simplices)
+    else:
+        simplices = Delaunay(np.asarray(desc["vertices"])).simplices
     pairs = set()
-    for t in tri.simplices:
+    for t in simplices:
         for a, b in ((0, 1), (0, 2), (1, 2)):
             pairs.add(tuple(sorted((int(t[a]), int(t[b])))))
     return pairs
@@ -181,7 +195,8 @@ def kernel_scale(rng, mp, name):
 def run_mesh(ctx, i):
     rng = gen.rng_for(ctx.seed, NO, 1, i)
     kind = "rect" if i % 2 == 0 else "del"
-    ok, res = ctx.guarded("mapper.construct", lambda: build_mapper(ctx, rng, kind))
+    lattice = kind == "del" and i % 8 == 3
+    ok, res = ctx.guarded("mapper.construct", lambda: build_mapper(ctx, rng, kind, lattice))
     if not ok:
         return
     mp, desc, m = res
@@ -205,7 +220,7 @@ def run_mesh(ctx, i):
             continue
         offdiag = bool(np.abs(Hm - np.diag(np.diag(Hm))).max() > 0)
         ctx.case(name, sorted(params.items()), _np(mp.source_plane_mesh_grid), nontrivial=(int(mp.params) >= 4 and offdiag),
-                 cls=["scheme:" + name, "mesh:" + kind] + (["nonsquare_mesh"] if kind == "rect" and desc["shape"][0] != desc["shape"][1] else []),
+                 cls=["scheme:" + name, "mesh:" + kind + ("_lattice_vertices" if desc.get("lattice") else "")] + (["nonsquare_mesh"] if kind == "rect" and desc["shape"][0] != desc["shape"][1] else []),
                  sample=lambda: {"scheme": name, "params": params, "mesh": desc["shape"] if kind == "rect" else "delaunay %d vertices" % len(desc["vertices"]),
                                  "min_eig": float(np.linalg.eigvalsh((Hm + Hm.T) / 2).min())})
 
